@@ -1,4 +1,5 @@
 import RQ.Lemmas.InodesFS
+import RQ.Lemmas.ApplySplit
 /-! Helper lemmas for C15, part 2: `existed` of memory entries is truthful w.r.t. the initial file system. -/
 namespace RQ
 section
@@ -178,10 +179,10 @@ theorem moveIn_existed {self other r : FileSt Bytes} (h : moveIn self other = so
   · cases h
   · cases h; rfl
 
-theorem applyOne_ok {fs0 : FS} {st st' : St} {cfg : Cfg} {index : Nat} {entry : Series.Entry}
+theorem applyCore_ok {fs0 : FS} {st st' : St} {cfg : Cfg} {index : Nat} {entry : Series.Entry}
     {fp : PFilePatch} {b : Bool} (h : MemOK fs0 st.mem)
-    (e : applyOne st fs0 cfg index entry fp = .ok (st', b)) : MemOK fs0 st'.mem := by
-  unfold applyOne at e
+    (e : applyCore st fs0 cfg index entry fp = .ok (st', b)) : MemOK fs0 st'.mem := by
+  unfold applyCore at e
   split at e
   · cases e
   · split at e
@@ -232,6 +233,18 @@ theorem applyOne_ok {fs0 : FS} {st st' : St} {cfg : Cfg} {index : Nat} {entry : 
             refine hm.put ?_
             rw [apply_existed happ]
             exact hx
+
+theorem preLoad_memOK {fs0 : FS} {m mem0 : Mem} {fp : PFilePatch} (h : MemOK fs0 m)
+    (e : preLoad m fs0 fp = .ok mem0) : MemOK fs0 mem0 := by
+  rcases preLoad_ok e with rfl | ⟨n, f, _, _, hl⟩
+  · exact h
+  · exact (getOrLoad_ok h hl).1
+
+theorem applyOne_ok {fs0 : FS} {st st' : St} {cfg : Cfg} {index : Nat} {entry : Series.Entry}
+    {fp : PFilePatch} {b : Bool} (h : MemOK fs0 st.mem)
+    (e : applyOne st fs0 cfg index entry fp = .ok (st', b)) : MemOK fs0 st'.mem := by
+  obtain ⟨mem0, hp, hc⟩ := applyOne_ok_split e
+  exact applyCore_ok (st := { st with mem := mem0 }) (preLoad_memOK h hp) hc
 
 theorem applyFilePatches_ok {fs0 : FS} {cfg : Cfg} {index : Nat} {entry : Series.Entry}
     (fps : List PFilePatch) : ∀ {st st' : St} {a b : Bool}, MemOK fs0 st.mem →
